@@ -15,7 +15,8 @@
    of the code and Rust's unwinding rules.
 
    Step order mirrored (file: function):
-     handles/managed_mut.rs, managed.rs (Remover), blind_managed*.rs : Drop = lock().expect(NEVER_POISONED); pool.remove(h)
+     handles/managed_mut.rs, managed.rs (Remover), blind_managed*.rs : Drop = lock().expect(NEVER_POISONED);
+                                       [DropCatches: catch_unwind(] pool.remove(h) [); drop(guard); resume_unwind]
      handles/local_mut.rs, local.rs, blind_local*.rs                 : Drop = borrow_mut(); pool.remove(h)
      opaque/pool_raw.rs remove       : [BookFirst: length-1, vacancy]  slab.remove(h)  [~BookFirst: length-1, vacancy]
      opaque/slab.rs remove           : slot := Vacant, free list, count-1, THEN drop(old_meta) = the destructor
@@ -38,6 +39,7 @@ CONSTANTS
     MaxN,         \* scripted objects per program (<= 3)
     MaxDepth,     \* bound on nested callbacks
     CatchUnwind,  \* TRUE = managed insert_with / with_iter catch the unwind before releasing the guard (the code)
+    DropCatches,  \* TRUE = the managed handles' Drop catches the destructor's unwind, releases the guard, resumes
     BookFirst     \* TRUE = RawOpaquePool::remove updates length/vacancy before the destructor runs
 
 MaxObj  == 12                     \* scripted 1..3, bystander, fresh objects
@@ -531,7 +533,7 @@ Unwind ==
               /\ stack' = Below
               /\ UNCHANGED <<unw, hist, term>>
          [] OTHER ->
-              /\ guard' = Released(f, TRUE, FALSE)
+              /\ guard' = Released(f, TRUE, f.k = "drop" /\ DropCatches)
               /\ stack' = Below
               /\ UNCHANGED <<unw, hist, term>>
     /\ UNCHANGED <<prog, ost, slot, owner, rc, count, length, slabs, mpc, busy, next, rv>>
